@@ -126,7 +126,9 @@ def check_class(P, R, rule, cls, must, table, mw, path_prefix=()):
             top = k.split(".")[0]
             if top not in names:
                 R.anchor_missing(rule, "exemption table row `%s` names a member that no longer exists" % k)
-            # a row that is no longer needed (the field became covered) is harmless
+            else:
+                # the member became must-covered: the row is redundant (it would mask a later removal of the reset)
+                R.info.setdefault("redundant_exemption_rows", []).append("%s:%s" % (rule, k))
 
 
 def fl_file(P, cls):
@@ -265,11 +267,16 @@ def run(P, R, tier):
     R.table("c07_wrapper_exempt.json", wt)
     check_class(P, R, "C07.wrapper", "IPhreeqc", mustw, wt["fields"], mw)
 
-    # ------------------------------------------------------------------ C07.mirror
-    R.rule("C07.mirror", "engine writes of mirrored PRINT/KNOBS options are paired with the PHRQ_io setter; the reload path resets both sides", minimum=4)
+    mirror_rule(P, R, "C07.mirror", wt, un)
+
+
+def mirror_rule(P, R, RULE, wt, un, only=None, minimum=4):
+    R.rule(RULE, "engine writes of mirrored PRINT/KNOBS options are paired with the PHRQ_io setter; the reload path resets both sides", minimum=minimum)
     mirrors = wt["mirrors"]
     for mrow in mirrors:
         opt, setter = mrow["option"], mrow["setter"]
+        if only is not None and opt not in only:
+            continue
         writers = []
         for key, f in P.functions.items():
             if f.get("cls") != "Phreeqc" or f["name"] in ("InternalCopy", "Phreeqc"):
@@ -278,20 +285,67 @@ def run(P, R, tier):
                 root, steps = T.access_path(tgt)
                 if root == ("this",) and [s[1].split("::")[-1] for s in steps if s[0] == "f"] == opt.split("."):
                     writers.append((f, line))
-        if not R.require(writers, "C07.mirror", "no writer of %s found" % opt):
+        if not R.require(writers, RULE, "no writer of %s found" % opt):
             continue
+        nth = {}
         for f, line in writers:
-            inst = "%s@%s" % (opt, f["name"])
-            has = any(T.callee_name(c) == setter for c in T.calls(f["body"]))
+            nth[f["name"]] = nth.get(f["name"], 0) + 1
+            inst = "%s@%s" % (opt, f["name"]) + ("" if nth[f["name"]] == 1 else "#%d" % nth[f["name"]])
+            # per-write pairing: the setter is called in the same statement or in one of the next two statements of the
+            # block that contains the write (the engine's idiom: `pr.x = v; phrq_io->Set_x_on(...)`)
+            has = False
+
+            def unwrap(x):
+                while T.is_node(x) and x[0] in ("Case", "Default", "Label"):
+                    x = x[4] if x[0] == "Case" else (x[2] if x[0] == "Default" else x[3])
+                return x
+
+            def is_write(n_):
+                return any(l_ == line and T.access_path(tg_)[0] == ("this",) and
+                           [s_[1].split("::")[-1] for s_ in T.access_path(tg_)[1] if s_[0] == "f"] == opt.split(".")
+                           for tg_, hw_, l_, n__ in T.writes(n_))
+            # every block (innermost first) whose statement list contains the write: the statement holding the write or one of
+            # the next two statements of that block calls the setter; at most two enclosing levels are considered
+            levels = []
+            for blk in T.walk(f["body"]):
+                if blk[0] != "Compound":
+                    continue
+                sts = [unwrap(x) for x in blk[2] if T.is_node(x)]
+                for i_, st_ in enumerate(sts):
+                    if T.is_node(st_) and is_write(st_):
+                        levels.append((sts, i_))
+            for depth_, (sts, i_) in enumerate(levels[::-1][:2]):
+                if depth_ == 0:
+                    near = sts[i_: i_ + 3]
+                else:
+                    # one level out: only when the write sits in a small guard (`if (phast) { pr.logfile = FALSE; ... }`) and the
+                    # setter follows that guard; the guard statement itself is not searched
+                    if sts[i_][0] != "If":
+                        break
+                    near = sts[i_ + 1: i_ + 3]
+                if any(T.callee_name(c) == setter for x in near if T.is_node(x) for c in T.calls(x)):
+                    has = True
             if has:
-                R.ok("C07.mirror", inst, "paired with %s" % setter)
+                R.ok(RULE, inst, "paired with %s" % setter)
             elif f["name"] in mrow.get("reset_in_unload", []):
                 # the reset side: the wrapper's unload path must call the setter instead
                 if any(T.callee_name(c) == setter for c in T.calls(un["body"])) or mrow.get("resync"):
-                    R.ok("C07.mirror", inst, "reset counterpart: %s" % (("UnLoadDatabase calls " + setter) if not mrow.get("resync") else mrow["resync"]))
+                    R.ok(RULE, inst, "reset counterpart: %s" % (("UnLoadDatabase calls " + setter) if not mrow.get("resync") else mrow["resync"]))
                 else:
-                    R.violation("C07.mirror", inst, "%s resets %s but nothing on the reload path resets the PHRQ_io mirror (%s)" % (f["name"], opt, setter),
+                    R.violation(RULE, inst, "%s resets %s but nothing on the reload path resets the PHRQ_io mirror (%s)" % (f["name"], opt, setter),
                                 file=f["file"], line=line, function=f["q"])
+            elif any(e["function"] == f["name"] and e["option"] == opt and e.get("kind") == "consulted-directly" for e in wt.get("mirror_exceptions", [])):
+                e_ = [e for e in wt["mirror_exceptions"] if e["function"] == f["name"] and e["option"] == opt and e.get("kind") == "consulted-directly"][0]
+                fq_ = "print::" + opt.split(".")[-1] if False else None
+                okr = True
+                for rq in e_["readers"]:
+                    fs_ = P.fns_named(rq)
+                    if not fs_ or not any(any(y[0] == "Member" and y[2].split("::")[-1] == opt.split(".")[-1] for y in T.walk(g_["body"])) for g_ in fs_):
+                        okr = False
+                if okr:
+                    R.ok(RULE, inst, "exception: option consulted directly by %s" % ", ".join(e_["readers"]))
+                else:
+                    R.violation(RULE, inst, "listed exception no longer holds: %s does not read %s" % (e_["readers"], opt), file=f["file"], line=line, function=f["q"])
             elif any(e["function"] == f["name"] and e["option"] == opt for e in wt.get("mirror_exceptions", [])):
                 # save/restore idiom: the last write restores a local that was initialised from the option
                 ws = [(l, n) for tg, hw, l, n in T.writes(f["body"]) if T.access_path(tg)[0] == ("this",) and
@@ -306,8 +360,8 @@ def run(P, R, tier):
                                     [s2[1].split("::")[-1] for s2 in T.access_path(d[2])[1] if s2[0] == "f"] == opt.split("."):
                                 saved = d[0]
                 if T.is_node(rv) and rv[0] == "Ref" and rv[2] == "local" and rv[3] == saved:
-                    R.ok("C07.mirror", inst, "save/restore idiom")
+                    R.ok(RULE, inst, "save/restore idiom")
                 else:
-                    R.violation("C07.mirror", inst, "listed save/restore exception no longer restores the saved value", file=f["file"], line=line, function=f["q"])
+                    R.violation(RULE, inst, "listed save/restore exception no longer restores the saved value", file=f["file"], line=line, function=f["q"])
             else:
-                R.violation("C07.mirror", inst, "%s is written without updating its PHRQ_io mirror through %s" % (opt, setter), file=f["file"], line=line, function=f["q"])
+                R.violation(RULE, inst, "%s is written without updating its PHRQ_io mirror through %s" % (opt, setter), file=f["file"], line=line, function=f["q"])
